@@ -171,13 +171,13 @@ func init() {
 			"distinct_nontrivial = distinct histories (hash of the per-key outcome patterns) containing at least one pair of real-time-concurrent conflicting operations on one key",
 		Required:    []string{"histories", "partitions.ok", "histories.concurrent_conflict", "ops.read", "ops.write", "ops.delete", "ops.expireall", "ops.deleteall", "ops.walk", "walk.stable_keys.checked", "evictions.recorded", "cleanup_cycles.recorded", "kind.ShardedMap", "kind.SyncMap", "kind.ShardedMapOf"},
 		Assumptions: []string{"a batch operation is modelled as acting on each key at one instant within its call; an eviction cycle as {unchanged, removed} within [previous janitor call-out, cache_evict call-out]", "checker timeout (30s per key partition) = inconclusive"},
-		Timeout:     func(string) time.Duration { return 30 * time.Minute },
+		Timeout:     func(string) time.Duration { return 45 * time.Minute },
 		ChildEnv:    []string{"GOMAXPROCS=8"},
 	})
 }
 
 func runC08(b *Batch) {
-	n := b.Pick(8000, 320000) / b.NBatches
+	n := b.Pick(8000, 640000) / b.NBatches
 	for i := 0; i < n; i++ {
 		if b.Skip(i) {
 			continue
